@@ -9,6 +9,7 @@ kind and the disjunction; `not` negates the value; `beyond` / `not_beyond` "only
 select or reject elements on their own": they contribute the value accumulated so far.
 -/
 import AgdbSearch.Model.Query
+import AgdbSearch.Lemmas.Extent
 namespace AgdbSearch
 
 /-! ### Documented tables -/
@@ -162,6 +163,78 @@ theorem C15_never_finish (legacy : Bool) (g : Graph) (cs : Conds) (x : Int) (d :
 /-- `beyond` never stops at the origin (distance 0). -/
 theorem C15_beyond_origin (r c : Control) : (applyModifier .beyond 0 r c).kind = .cont := by
   simp [applyModifier]
+
+/-! ### Extent of the traversal -/
+
+/-- Condition trees whose answer does not depend on the distance: no `distance` atom and no `beyond` modifier
+(`beyond` treats the origin specially). -/
+def pureConds : Conds → Bool
+  | .nil => true
+  | .leaf _ m a rest =>
+    (match a with | .distance _ => false | _ => true) && (match m with | .beyond => false | _ => true) && pureConds rest
+  | .group _ m inner rest => (match m with | .beyond => false | _ => true) && pureConds inner && pureConds rest
+
+theorem evalFrom_pure (legacy : Bool) (g : Graph) (x : Int) (d : Nat) (cs : Conds) (hp : pureConds cs = true) :
+    ∀ r, evalFrom legacy g x d r cs = evalFrom legacy g x 0 r cs := by
+  induction cs with
+  | nil => intro r; rfl
+  | leaf l m a rest ih =>
+    intro r
+    simp only [pureConds, Bool.and_eq_true] at hp
+    have ha : evalAtom legacy g x d a = evalAtom legacy g x 0 a := by
+      cases a <;> first | rfl | simp at hp
+    have hm : ∀ c, applyModifier m d r c = applyModifier m 0 r c := by
+      intro c; cases m <;> first | rfl | simp at hp
+    simp only [evalFrom, ha, hm, ih hp.2]
+  | group l m inner rest ihi ihr =>
+    intro r
+    simp only [pureConds, Bool.and_eq_true] at hp
+    have hm : ∀ c, applyModifier m d r c = applyModifier m 0 r c := by
+      intro c; cases m <;> first | rfl | simp at hp
+    simp only [evalFrom, ihi hp.1.2, hm, ihr hp.2]
+
+/-- **Extent of a conditional traversal** (distance-independent conditions; both algorithms, both directions, node or
+edge origin, any graph): the search returns exactly the elements that (a) are reachable from the origin without
+passing through an element whose control is `Stop` — a stopped node's edges and a stopped edge's target are not
+followed, the sibling edges of a stopped edge still are — and (b) are selected (`C15_selection`). -/
+theorem C15_extent (legacy : Bool) (g : Graph) (cs : Conds) (hp : pureConds cs = true)
+    (alg : Alg) (V : View) (hwf : V.WF) (o : Int) (ho : 0 < o ∨ 0 < V.target o) (fuel : Nat) (xs : List Int)
+    (h : run (gstep false alg V) (defaultH (evalConds legacy g cs)) fuel (gsInit o) () = .ok xs) :
+    ∀ x, x ∈ xs ↔
+      ReachC V (fun y => (evalConds legacy g cs y 0).kind) o x ∧ (evalConds legacy g cs x 0).val = true := by
+  have hK : ∀ x d, (evalConds legacy g cs x d).kind = (evalConds legacy g cs x 0).kind := by
+    intro x d; unfold evalConds; rw [evalFrom_pure legacy g x d cs hp]
+  have hB : ∀ x d, (evalConds legacy g cs x d).val = (evalConds legacy g cs x 0).val := by
+    intro x d; unfold evalConds; rw [evalFrom_pure legacy g x d cs hp]
+  have hnf : ∀ x, (evalConds legacy g cs x 0).kind ≠ .finish := fun x => C15_never_finish legacy g cs x 0
+  intro x
+  constructor
+  · intro hx
+    refine extent_sound_aux V hwf alg _ _ _ o hK hB fuel (gsInit o) xs h ?_ x hx
+    intro si hsi
+    simp [gsInit] at hsi; subst hsi
+    refine ⟨ReachC.origin, fun hn => ?_, fun _ hd => absurd rfl hd⟩
+    rcases ho with h' | h'
+    · exact absurd h' hn
+    · exact h'
+  · rintro ⟨hr, hb⟩
+    have hinv : InvC V (fun y => (evalConds legacy g cs y 0).kind) (gsInit o) := by
+      refine ⟨by intro n hn; simp [gsInit] at hn, by intro e he; simp [gsInit] at he, ?_, ?_⟩
+      · intro si hsi _ hd; simp [gsInit] at hsi; subst hsi; simp at hd
+      · intro si hsi hn; simp [gsInit] at hsi; subst hsi
+        rcases ho with h' | h'
+        · exact absurd h' hn
+        · exact h'
+    obtain ⟨W, hc, _, hwork, hret⟩ :=
+      extent_complete_aux V hwf alg _ _ _ hK hB hnf fuel (gsInit o) xs h hinv
+    have hoW : o ∈ W := hwork ⟨o, 0⟩ (by simp [gsInit])
+    have hall : ∀ y, ReachC V (fun y => (evalConds legacy g cs y 0).kind) o y → y ∈ W := by
+      intro y hy
+      induction hy with
+      | origin => exact hoW
+      | edge _ hn hk he ih => exact hc.1 _ ih hn hk _ he
+      | node _ hn hk ih => exact hc.2 _ ih hn hk
+    exact hret x (hall x hr) (by simp [gsInit]) hb
 
 /-! ### Comparisons -/
 
